@@ -44,7 +44,7 @@ TStep ==
      IN IF Explains(ev)
         THEN l' = l + 1
         ELSE /\ Reject(l, [class |-> ev.class, cls |-> StrClass(ev.s), expected |-> Pred(ev, GoawkDialect)])
-             /\ l' = AfterNextReset(l)
+             /\ l' = l + 1           \* observations are independent: the next one can still be judged
 TReset == l <= NLog /\ Log[l].ev = "reset" /\ l' = l + 1
 TDone == l = NLog + 1 /\ PrintT("TRACE-END") /\ l' = l + 1
 Next == TStep \/ TReset \/ TDone
